@@ -295,9 +295,10 @@ class Engine:
                     oidx = [k for k, a in enumerate(i.ops) if is_res(o, a)]
                     if oidx and nm in RELEASERS and RELEASERS[nm] in oidx:
                         if nm in SHALLOW:
-                            report("field-leak", i, "%s is released with free() while %s, stored in one of its fields, is still owned"
-                                   % (o.label, res.label))
-                            st = frozenset(self._map(st, {"F": "D"}))
+                            # the owner's block is gone; the resource is now reachable only through local copies of
+                            # the pointer (if any): owned by this function again, a leak unless released before return
+                            st = frozenset(("O" if t == ("F", id(o)) else t) for t in st)
+                            self.orphaned_at = i
                         else:
                             st = frozenset(t for t in st if t != ("F", id(o))) | frozenset(["D"])
         if not argidx:
@@ -638,13 +639,16 @@ def rule_leaks(chk, prog, rid, only_functions=None, floor=40):
                 chk.note("%s %s: carried around the dispatch loop; acquisition-to-consumption completeness is decided by "
                          "the automaton rules, E2 decided %d consume sites" % (f.name, sig, len(sites)))
                 continue
+            eng.orphaned_at = None
             problems, exits = eng.run(r, ress)
             leaks = []
             for ret, st in exits:
                 for t in st:
                     k = t if isinstance(t, str) else t[0]
                     if k == "O":
-                        leaks.append((ret, "still owned at this return"))
+                        oa = getattr(eng, "orphaned_at", None)
+                        leaks.append((ret, "still owned at this return" + (
+                            " (the block that held it in a field was released with free() at %s)" % oa.locstr() if oa is not None else "")))
                     elif k == "P":
                         leaks.append((ret, "handed to a consume-on-success call whose failure is not handled"))
                     elif k == "A":
